@@ -5,7 +5,7 @@ Run as   python -m harness.bigmem '<json case>'   and read one JSON line:
 
 events (the trace validated by TLC against TraceMem):
   new    {block, limit}                          one SevenZipDecompressor came to life
-  call   {m, cur, d, t, res, buf, h, dr}         one SevenZipDecompressor.decompress(fp, m): bytes parked before (cur), packed bytes
+  call   {m, cur, d, t, res, buf, h, dr, req}    one SevenZipDecompressor.decompress(fp, m): bytes parked before (cur), packed bytes
                                                  read (d), decoder output of the call (t), handed out (res), parked after (buf),
                                                  h: a decoder still held data of earlier input at entry, dr: what draining it gave (-1: not tried)
   wread  {n, block}                              the compressor's largest single read from the member's source
@@ -109,7 +109,7 @@ def install_probe(C, events):
 
     def _decompress(self, data, max_length, *a, **kw):
         r = o_inner(self, data, max_length, *a, **kw)
-        self._vcalls.append((len(data), len(r)))
+        self._vcalls.append((len(data), len(r), int(max_length)))
         return r
 
     def holding(self):
@@ -129,8 +129,9 @@ def install_probe(C, events):
             calls = self._vcalls
             dr = calls[0][1] if (calls and calls[0][0] == 0 and h) else -1
             t = calls[-1][1] if calls else -1
+            req = calls[-1][2] if calls else -1          # what the decoders were asked for
             events.append({"e": "call", "m": sat(max_length), "cur": sat(cur), "d": sat(self._vd), "t": sat(t), "res": sat(len(res)),
-                           "buf": sat(len(self._buf) - self._pos), "h": bool(h), "dr": sat(dr) if dr >= 0 else -1})
+                           "buf": sat(len(self._buf) - self._pos), "h": bool(h), "dr": sat(dr) if dr >= 0 else -1, "req": sat(req) if req >= 0 else -1})
         return res
 
     D.__init__, D.decompress, D._decompress, D._read_data = __init__, decompress, _decompress, _read_data
@@ -171,9 +172,57 @@ def inflate64_alone(n_mib):
     print(json.dumps({"n_mib": n_mib, "inflated_mib": n >> 20, "deflater_left_mib": (b1 - b0) // 1024, "inflater_left_mib": (b2 - b1) // 1024}))
 
 
+def pyppmd_alone(members, order=6, mem=1 << 24):
+    """the delegated PPMd library on its own, driven the way a streaming caller drives it: the same synthetic members encoded in
+    1 MiB blocks, decoded from 1 MiB input blocks with the output of every call bounded by what the member still needs (<= 128 MB).
+    Prints one JSON line; a crash of the library kills this process (the caller sees the exit status)."""
+    import pyppmd
+
+    packed = os.path.join("/dev/shm" if os.path.isdir("/dev/shm") else "/tmp", f"ppmd-{os.getpid()}.raw")
+    try:
+        e = pyppmd.Ppmd7Encoder(order, mem)
+        with open(packed, "wb") as f:
+            for k, (size, texture) in enumerate(members):
+                src = Synthetic(size, texture, seed=1000 + k)
+                while True:
+                    b = src.read(1 << 20)
+                    if not b:
+                        break
+                    f.write(e.encode(b))
+            f.write(e.flush())
+        d = pyppmd.Ppmd7Decoder(order, mem)
+        verdict = "ok"
+        with open(packed, "rb") as f:
+            for k, (size, texture) in enumerate(members):
+                src = Synthetic(size, texture, seed=1000 + k)
+                got, idle = 0, 0
+                while got < size and idle < 64:
+                    chunk = f.read(1 << 20)
+                    if not chunk and d.needs_input:
+                        chunk = b"\0"
+                    r = d.decode(chunk, min(size - got, 128000000))
+                    if r and r != src.read(len(r)):
+                        verdict = "different bytes"
+                        break
+                    got += len(r)
+                    idle = 0 if r else idle + 1
+                if got < size and verdict == "ok":
+                    verdict = "short output"
+                if verdict != "ok":
+                    break
+    except Exception as ex:  # noqa
+        verdict = f"raised {ex!r}"
+    finally:
+        if os.path.exists(packed):
+            os.unlink(packed)
+    print(json.dumps({"pyppmd_alone": verdict}))
+
+
 def main():
     if sys.argv[1] == "--inflate64-alone":
         return inflate64_alone(int(sys.argv[2]))
+    if sys.argv[1] == "--pyppmd-alone":
+        return pyppmd_alone(json.loads(sys.argv[2]))
     case = json.loads(sys.argv[1])
     if case.get("rlimit_data"):
         # a generous, finite data-segment limit (ulimit -d): the chunk size must stay capped at 128 MB whatever the limit says
